@@ -87,6 +87,8 @@ def r1(ctx, F, hub):
                 labs |= hub.label_operand(body, op_)
             in_graph = body.path in hub.graph
             ok = in_graph and labs <= {SAFE} and (labs or all(hub.path_class(body, op_) == 'staging' for op_ in ops_))
+            if not ok and in_graph and callee(rt_).endswith('remove_dir') and labs and labs <= {SAFE, 'SIBLING'}:
+                ok = True       # removing an (empty) directory above a request path never unlinks a file: the lock is a file in a non-empty directory
             if not ok and in_graph and labs == {ROOT} and all(hub.from_walk(body, op_) for op_ in ops_):
                 # entries found by walking the served tree (a clean-up of leftovers): whether the walk can hand over the lock
                 # file depends on how the entries are filtered - data, not shape
@@ -239,6 +241,8 @@ def r3_r5(ctx, F, hub):
                 reply_rule(ctx, b, fl, mb, 'DeleteResult', 'deleted', 1, '%s:deleted-true' % handler)
             elif c.endswith('remove_file') and classes == ['staging']:
                 ctx.ok('C03.R3', '%s:staging-cleanup' % handler, 'removal of the server\'s own staging file (not a live path)', term_loc(b, mb))
+            elif short == 'remove_dir':
+                ctx.undecided('C03.R3', '%s removes directories inside the commit region (pruning what a delete emptied): not a change of a live file, not judged' % handler)
             else:
                 ctx.bad('C03.R3', '%s:%s(%s)' % (handler, short, ','.join(classes)), 'unexpected file mutation inside the commit region', term_loc(b, mb))
         # no success reply without the corresponding operation: every path to a success reply passes the Ok edge of
